@@ -11,6 +11,8 @@ import (
 	"runtime"
 	"sort"
 	"strings"
+
+	"google.golang.org/protobuf/reflect/protoreflect"
 	"sync"
 	"sync/atomic"
 	"testing"
@@ -25,26 +27,26 @@ import (
 const ruleC14 = "rapid draws batches of 2..24 scenarios (C01/C03/C09 generators: mixed client forms, codecs, compressions, distinct payloads, failing and faulty requests) that run concurrently on ONE Transcoder, in a generated start order with generated GOMAXPROCS, plus full-duplex streams whose request body is a pipe fed by a client goroutine while the handler reads and writes from two different goroutines, optionally with an invalid envelope or a cut injected on the request side while the response side is busy. The binary is built with -race; the instrumented poisoning buffer pool (tag verif) is active. Half of the batches start with a sequential prelude of requests that fail inside the transcoder (corrupt gzip headers) before the others run concurrently, some with every RPC inflating; compressor and decompressor objects are bookkeeping wrappers registered through WithCompression (in use from Reset to Close). Solo reference runs use the ordinary pool, the concurrent phase the poisoning one. Oracle: (0) no (de)compressor object is Reset while in use; (1) every RPC's canonical outcome equals its solo run on a fresh Transcoder; (2) the race detector log gains no report whose stacks contain frames of package vanguard (reports are parsed into call-site pairs and matched against known findings); (3) pool bookkeeping: no double release, no hand-out of a live buffer, no write after release. Non-trivial = at least two overlapping RPCs that used pooled buffers, or a duplex stream with a fault on one side while the other side moved data; distinct by hash(batch)."
 
 type duplexSpec struct {
-	Form        string `json:"form"`         // connect_stream | grpc | grpcweb
-	Target      string `json:"target"`       // backend protocol
-	Codec       string `json:"codec"`        // client codec; backend accepts only BackendCodec
+	Form         string `json:"form"`   // connect_stream | grpc | grpcweb
+	Target       string `json:"target"` // backend protocol
+	Codec        string `json:"codec"`  // client codec; backend accepts only BackendCodec
 	BackendCodec string `json:"backend_codec"`
-	NReq        int    `json:"n_req"`
-	NResp       int    `json:"n_resp"`
-	FaultAt     int    `json:"fault_at"`     // -1 none; index of the request frame to corrupt
-	FaultKind   string `json:"fault_kind"`   // flag | cut
-	PayloadLen  int    `json:"payload_len"`
-	Yield       int    `json:"yield"`        // Gosched calls between client frames
-	CloseEarly  bool   `json:"close_early"`  // the writer goroutine closes the request body while the reader goroutine may still be in Read (as proxies do)
+	NReq         int    `json:"n_req"`
+	NResp        int    `json:"n_resp"`
+	FaultAt      int    `json:"fault_at"`   // -1 none; index of the request frame to corrupt
+	FaultKind    string `json:"fault_kind"` // flag | cut
+	PayloadLen   int    `json:"payload_len"`
+	Yield        int    `json:"yield"`       // Gosched calls between client frames
+	CloseEarly   bool   `json:"close_early"` // the writer goroutine closes the request body while the reader goroutine may still be in Read (as proxies do)
 }
 
 type concCase struct {
-	Config   Config       `json:"config"`
-	Batch    []Scenario   `json:"batch,omitempty"`
-	Duplex   []duplexSpec `json:"duplex,omitempty"`
-	Procs    int          `json:"procs"`
-	Prelude int `json:"prelude,omitempty"` // the first Prelude RPCs (in Order) run sequentially before the others start
-	Order    []int        `json:"order,omitempty"`
+	Config  Config       `json:"config"`
+	Batch   []Scenario   `json:"batch,omitempty"`
+	Duplex  []duplexSpec `json:"duplex,omitempty"`
+	Procs   int          `json:"procs"`
+	Prelude int          `json:"prelude,omitempty"` // the first Prelude RPCs (in Order) run sequentially before the others start
+	Order   []int        `json:"order,omitempty"`
 }
 
 func init() {
@@ -115,7 +117,8 @@ func TestC14(t *testing.T) {
 			c.Order = rapid.Permutation(intRange(n)).Draw(t, "start_order")
 			if n >= 3 && rapid.Bool().Draw(t, "with_prelude") {
 				c.Prelude = rapid.IntRange(1, minInt(3, n-2)).Draw(t, "prelude")
-				if rapid.Bool().Draw(t, "all_inflate") {
+				overLimit := rapid.Bool().Draw(t, "prelude_over_limit")
+				if rapid.Bool().Draw(t, "all_inflate") || overLimit {
 					// everyone sends gzip and the backend takes none: every RPC of the batch goes through
 					// the transcoder's decompressor pool
 					cfg.Compressions = []string{}
@@ -135,6 +138,16 @@ func TestC14(t *testing.T) {
 						sc.Client.Compression = CompGzip
 					}
 					sc.Client.MsgRaw = nil
+					if overLimit && len(sc.Client.Msgs) > 0 {
+						// ... or that inflate past the message size limit (64 KiB here) from a few hundred bytes
+						mi := lookupMethod(benchService, sc.Client.Method)
+						big := newMessage(mi.In)
+						if fd := big.ProtoReflect().Descriptor().Fields().ByName("string_value"); fd != nil && fd.Kind() == protoreflect.StringKind && !fd.IsList() {
+							big.ProtoReflect().Set(fd, valueOfString(strings.Repeat("inflates past the limit ", 4000)))
+							sc.Client.Msgs[0] = mustMarshal(big)
+							continue
+						}
+					}
 					sc.Client.Fault = &Fault{Kind: FaultBitFlip, At: rapid.IntRange(0, 12).Draw(t, "prelude_bitflip_at"), Val: rapid.IntRange(0, 7).Draw(t, "prelude_bit")}
 				}
 			}
@@ -243,12 +256,12 @@ func raceSignature(report string) (string, bool) {
 // ---- duplex streams -----------------------------------------------------------------
 
 type duplexObs struct {
-	status   int
-	outcome  string
-	msgs     int
+	status      int
+	outcome     string
+	msgs        int
 	handlerRead int
-	panicked string
-	hang     bool
+	panicked    string
+	hang        bool
 }
 
 func duplexContentType(form, codec string) []KV {
@@ -407,7 +420,6 @@ func duplexHandler(specFor func(r *http.Request) duplexSpec) http.Handler {
 		}
 	})
 }
-
 
 func checkC14(c *concCase) *CheckResult {
 	res := &CheckResult{}
@@ -598,7 +610,6 @@ func batchForms(b []Scenario) string {
 	return fmt.Sprint(m)
 }
 
-
 func anyTrue(bs []bool) bool {
 	for _, b := range bs {
 		if b {
@@ -607,4 +618,3 @@ func anyTrue(bs []bool) bool {
 	}
 	return false
 }
-
